@@ -429,7 +429,7 @@ func init() {
 		ID:    "C12",
 		Level: "model_checking",
 		Mode:  "ov",
-		Rule: "corpus = every code object (recursively through co_consts) compiled from: the scope corpus; every .py file of the repository; hand-written limit programs (19/20/21/25 nested for/try/with, EXTENDED_ARG jump, line/byte gaps > 255 in the line table, wide operands); and the generated programs: " +
+		Rule: "corpus = every code object (recursively through co_consts) compiled from: the scope corpus; every .py file of the repository; hand-written limit programs (19/20/21/25 nested for/try/with, EXTENDED_ARG jump, relative jumps over > 65535 bytes, loop headers and jump targets at every byte offset around 0xFFFF, chains of 999..2500 if / if-else / elif / and / conditional expression / while / try statements followed by a 25-argument call, line/byte gaps > 255 in the line table, wide operands); and the generated programs: " +
 			"(1) SPINES: wrapper in {module, function, generator, class body, closure} x every sequence of 0..2 (quick) / 0..3 (thorough; sequences of 3 only in the module/function/generator wrappers with the first 11 leaves) one-hole compound-statement contexts out of 49 (if/elif/else arms, while/for body and else, try body/handler (bare, typed, `as`, 2nd handler)/else/finally entered normally, by exception, return, break, continue, with (1-2 managers, `as`, swallowing), def/generator/def with all parameter kinds/closure/decorated def/class/class in def) x leaf in {pass, assignment, break, continue, return v, raise E, yield, bare raise, bare return, x = yield, yield from (+ raising call, raise from: thorough)}; " +
 			"(2) TEMPLATES: 13 compound statements with 2-4 suites, every combination of 6 (quick) / 10 (thorough) leaves in the suites, in 6 wrappers (function/generator/module, inside for/while/with/try-finally); " +
 			"(3) ~100 straight-line statement forms (augmented assignment to name/attribute/subscript/slice, star-unpacking, del, assert, global/nonlocal, import forms, call forms with */**, decorators, keyword-only defaults, annotations, class forms, comprehensions, yield forms) bare and under each context in each wrapper; " +
